@@ -206,6 +206,9 @@ class C01(Check):
             out_shape, perm, identity = None, None, False
 
         ctx.outcome(op + (":identity" if identity else ":permuting") if groups is not None else op)
+        # the `shape` argument of the fold functions is handed over as ONE caller-owned list object, reused by every call of this
+        # case (a fold that edits it in place corrupts the following calls); tuples are used for odd seeds
+        shape_arg = list(shape) if seed % 2 == 0 else tuple(shape)
 
         for dtype in DTYPES:
             vals = make_values(size, dtype, seed)
@@ -235,18 +238,18 @@ class C01(Check):
                 try:
                     if op == "unfold":
                         y = B.unfold(x, case["mode"])
-                        back = B.fold(y, case["mode"], shape)
+                        back = B.fold(y, case["mode"], shape_arg)
                     elif op == "vec":
                         y = B.tensor_to_vec(x)
-                        back = B.vec_to_tensor(y, shape)
+                        back = B.vec_to_tensor(y, shape_arg)
                     elif op == "partial_unfold":
                         y = B.partial_unfold(x, case["mode"], case["sb"], case["se"], case["ravel"])
                         back = None
                         if not case["ravel"]:
-                            back = B.partial_fold(y, case["mode"], shape, case["sb"], case["se"])
+                            back = B.partial_fold(y, case["mode"], shape_arg, case["sb"], case["se"])
                     elif op == "partial_vec":
                         y = B.partial_tensor_to_vec(x, case["sb"], case["se"])
-                        back = B.partial_vec_to_tensor(y, shape, case["sb"], case["se"])
+                        back = B.partial_vec_to_tensor(y, shape_arg, case["sb"], case["se"])
                     elif op == "matricize":
                         y = B.matricize(x, case["rows"], case["cols"])
                         back = None
@@ -263,6 +266,9 @@ class C01(Check):
                 elif not same_bits(y, expected):
                     ctx.violation(f"{op}/layout", f"{case} {tag}: got {y.tolist()} expected {expected.tolist()}")
                 if back is not None:
+                    if list(shape_arg) != list(shape):
+                        ctx.violation(f"{op}/shape-argument-modified", f"{case} {tag}: the caller's shape list {list(shape)} became {list(shape_arg)}")
+                        shape_arg = list(shape)
                     if not same_bits(back, vals.reshape(shape)):
                         ctx.violation(f"{op}/roundtrip", f"{case} {tag}: fold(unfold(x)) != x: {np.asarray(back).tolist()}")
                     # the fold functions alone, applied to the *reference* unfolding
